@@ -96,7 +96,19 @@ class Ctx:
         self.seed = seed
         self.level = level
         self.t0 = time.time()
+        # scratch directories a killed run left behind (a check that is OOM- or time-killed cannot clean up)
+        for d in os.listdir(tempfile.gettempdir()):
+            fp = os.path.join(tempfile.gettempdir(), d)
+            try:
+                if d.startswith("verif-") and os.path.isdir(fp) and time.time() - os.path.getmtime(fp) > 4 * 3600:
+                    shutil.rmtree(fp, ignore_errors=True)
+            except OSError:
+                pass
         self.scratch = tempfile.mkdtemp(prefix="verif-%s-" % prop)
+        # everything the tools and the drivers create as temporary files goes under the scratch directory
+        self.tmp = os.path.join(self.scratch, "tmp")
+        os.makedirs(self.tmp, exist_ok=True)
+        os.environ["TMPDIR"] = self.tmp
         self.violations = []      # (what, replay_path)
         self.known_hits = []      # strings
         self.drift = []
@@ -179,6 +191,7 @@ class Ctx:
             jopts.append("-Xmx" + heap)
         if dfs:
             jopts.append("-Dtlc2.tool.queue.IStateQueue=StateDeque")
+        jopts.append("-Djava.io.tmpdir=" + self.tmp)
         cmd = ["java"] + jopts + ["-cp", TLA_CP, "tlc2.TLC", "-config", "run.cfg", "-metadir", meta,
                                   "-workers", str(workers or "auto"), "-noGenerateSpecTE"]
         if not deadlock:
